@@ -685,6 +685,9 @@ func (i *PostingsIterator) ReplaceActual(abm *roaring.Bitmap) {
 }
 
 func (i *PostingsIterator) Count() uint64 {
+	if i.postings == nil {
+		return 0
+	}
 	return i.postings.Count()
 }
 
